@@ -1,6 +1,7 @@
 """Heap containers.  list: $len[id] + $elems[id][i];  dict / set: $has[id][k], $val[id][k], $keys[id] = id of a
 key list (iteration order; its elements are exactly the keys present, without duplicates -- assumed for
 pre-existing containers as `container-wf`, maintained for those built here), $len[id] = number of keys."""
+import os
 import z3
 
 from .z import V, VL, Int, simp
@@ -31,7 +32,11 @@ class View:
         vals = z3.Select(ex.heap_get(st, "$val"), self.base.t)
         if self.kind == "values":
             return SeqView(kv.n, lambda j, c=None: mk_any(z3.Select(vals, box(kv.elem(j)))), "values")
-        return SeqView(kv.n, lambda j, c=None: mk_tup([kv.elem(j, c), mk_any(z3.Select(vals, box(kv.elem(j))))]), "items")
+        sv_ = SeqView(kv.n, lambda j, c=None: mk_tup([kv.elem(j, c), mk_any(z3.Select(vals, box(kv.elem(j))))]), "items")
+        sv_.items_of = self.base  # the dict whose (key, value) pairs are enumerated (each key exactly once)
+        sv_.key_at = lambda j: box(kv.elem(j))
+        sv_.keypos = kv.keypos
+        return sv_
 
 
 def keys_view(ex, ctx, st, d, node):
@@ -69,7 +74,9 @@ def keys_view(ex, ctx, st, d, node):
             c.assume(z3.Implies(z3.And(j >= 0, j < n), z3.And(z3.Select(has, k), z3.Not(V.is_BOOL(k)))),
                      "container-wf:keys-present (bool keys are stored as the ints they equal)")
         return mk_any(k)
-    return SeqView(n, key_at, "keys")
+    kvw = SeqView(n, key_at, "keys")
+    kvw.keypos = kf  # position of a present key in the key list (container-wf:keys-complete)
+    return kvw
 
 
 def hashable_key(ex, ctx, st, key, node):
@@ -585,6 +592,33 @@ def comprehension(ex, ctx, st, e, kind, frame, g, exprs, view):
     key_j = merged(0)
     val_j = merged(1)
     r = ex.new_dict(ctx, st)
+    base = getattr(view, "items_of", None)
+    if base is not None and kind == "dict":
+        # {k: f(k, v) for (k, v) in d.items() if p(k, v)}: the key expression is the enumerated key itself.  items()
+        # yields every key of d exactly once (container-wf:keys-present/-complete/-distinct), so the result is
+        # characterised pointwise over keys, without position quantifiers:
+        #     has_r(x) <=> has_d(x) and p(x, d[x]);      has_r(x) => r[x] = f(x, d[x])
+        kj = view.key_at(j)
+        if os.environ.get("PYVC_DEBUG_COMP"):
+            print("COMP key_j=", simp(key_j), " kj=", simp(kj))
+        if z3.eq(simp(key_j), simp(kj)):
+            # the enumerated key is x itself; its index is keypos(x) (defined for the keys of d)
+            sel_k = z3.substitute(z3.substitute(sel_j, (kj, kx)), (j, view.keypos(kx)))
+            val_k = z3.substitute(z3.substitute(val_j, (kj, kx)), (j, view.keypos(kx)))
+            from .loops import mentions
+            jn = {j.decl().name()}
+            if not mentions(sel_k, jn) and not mentions(val_k, jn):
+                has_d = z3.Select(ex.heap_get(st, "$has"), base.t)
+                has = ctx.fresh("dcomp_has", z3.ArraySort(V, z3.BoolSort()), tuple(st.idx))
+                val = ctx.fresh("dcomp_val", z3.ArraySort(V, V), tuple(st.idx))
+                ctx.assume(z3.ForAll([kx], z3.Select(has, kx) == z3.And(z3.Select(has_d, kx), sel_k)),
+                           "dict-comprehension-over-items:keys")
+                ctx.assume(z3.ForAll([kx], z3.Implies(z3.Select(has, kx), z3.Select(val, kx) == val_k)),
+                           "dict-comprehension-over-items:values")
+                st.heap["$has"] = z3.Store(ex.heap_get(st, "$has"), r.t, has)
+                st.heap["$val"] = z3.Store(ex.heap_get(st, "$val"), r.t, val)
+                _fresh_keys(ex, ctx, st, r)
+                return r
     has = ctx.fresh("dcomp_has", z3.ArraySort(V, z3.BoolSort()), tuple(st.idx))
     val = ctx.fresh("dcomp_val", z3.ArraySort(V, V), tuple(st.idx))
     last = z3.Function(f"last!{uid}", *[i.sort() for i in st.idx], V, Int)
